@@ -108,6 +108,9 @@ Definition py_dict_get (d k : pv) : pm pv := lift (Val.py_dict_get d k).
 Definition py_iter (v : pv) : pm (list pv) := lift (Val.py_iter v).
 Definition py_to_bytes_le (v k : pv) : pm pv := lift (Val.py_to_bytes_le v k).
 Definition py_eq_obj (a b : pv) : pm bool := lift (Val.py_eq_obj a b).
+Definition py_to_bytes_be (v k : pv) : pm pv := lift (Val.py_to_bytes_be v k).
+Definition py_range (v : pv) : pm pv := lift (Val.py_range v).
+Definition py_enumerate (c st : pv) : pm pv := lift (Val.py_enumerate c st).
 
 (* ---- operations taking computations ---- *)
 Fixpoint py_all (l : list pv) (f : pv -> pm pv) : pm pv :=
@@ -138,6 +141,21 @@ Fixpoint pfold (l : list pv) (acc : pv) (body : pv -> pv -> pm pv) : pm pv :=
   end.
 Definition py_for (c : pv) (acc : pv) (body : pv -> pv -> pm pv) : pm pv :=
   mbind (py_iter c) (fun l => pfold l acc body).
+
+(* for x in c with `return` inside the body: the body yields [VInt 0; state] (go on) or [VInt 2; value]
+   (return); the loop yields [VInt 1; state] when the sequence is exhausted, or the [VInt 2; value] *)
+Fixpoint pfold_t (l : list pv) (acc : pv) (body : pv -> pv -> pm pv) : pm pv :=
+  match l with
+  | [] => mret (VList [VInt 1%Z; acc])
+  | x :: r => mbind (body acc x) (fun o =>
+                match o with
+                | VList [VInt 0%Z; acc'] => pfold_t r acc' body
+                | VList [VInt 2%Z; v] => mret (VList [VInt 2%Z; v])
+                | _ => mstuck
+                end)
+  end.
+Definition py_for_t (c : pv) (acc : pv) (body : pv -> pv -> pm pv) : pm pv :=
+  mbind (py_iter c) (fun l => pfold_t l acc body).
 
 (* loops: the body returns [VInt tag; payload] with tag 0 = go on (payload = state), 1 = leave the loop
    (payload = state), 2 = return from the function (payload = value) *)
